@@ -27,9 +27,9 @@ def std_run(ctx, spec):
             ctx.bininfo = getattr(ctx, "bininfo", {})
             ctx.bininfo[os.path.basename(b)] = dict(name=j["harness"], flags=list(j.get("flags", ())), sanitize=bool(j.get("sanitize", False)))
             w = j.get("workers", D.NCPU if len(jobs) == 1 else max(6, D.NCPU // 2))
-            # the per-job deadline only guards against hangs: the quick-tier tables are sized for ~1/3 of it on an idle 16-core machine
+            # for jobs that must finish (not time-budgeted) the deadline only guards against hangs: the tables are sized for ~1/3 of it on an idle 16-core machine
             deadline = j.get("deadline")
-            if deadline and ctx.tier == "quick":
+            if deadline and not j.get("budget"):
                 deadline = int(deadline * 2.5)
             futs.append(ex.submit(D.run_symx, ctx, b, j["pattern"], workers=w, deadline=deadline, profile=j.get("profile"),
                                   cap=j.get("cap"), max_paths=j.get("max_paths"), label=j.get("label"), env=j.get("env"), budget=j.get("budget", False)))
